@@ -9,8 +9,10 @@ import PraatModel.Props.C15
 
 The constructors validate, so every operation that returns through a constructor returns a well-formed tier — for
 ANY input, well-formed or not (`construct_wf`).  The in-place operations (insertEntry, deleteEntry and what is built
-from them: eraseRegion without shrinking, union, difference) preserve well-formedness under the separation
-hypothesis (C07/C10/C11).  `reachable_wf` lifts this to operation sequences of any length.
+from them: eraseRegion without shrinking, union, difference) preserve well-formedness (C07/C10/C11) — with no
+separation hypothesis: they only delete members of the tier, which `deleteEntry` (exact match first) removes exactly;
+a `deleteEntry` of an absent entry removes at most one entry, which keeps a well-formed tier well-formed.
+`reachable_wf` lifts this to operation sequences of any length.
 -/
 namespace C05
 
@@ -163,17 +165,18 @@ def stepT (t : ITier Int) : TOp → Except Err (ITier Int)
   | .morph u sel => t.morph u sel
   | .new => t.new
 
-/-- side conditions under which a step is covered by the theorems: arguments in the property's domain, and the
-separation hypothesis wherever the code deletes entries by tolerant equality -/
+/-- side conditions under which a step is covered by the theorems: arguments in the property's domain (there is no
+separation condition on the tier's entries: `insert`, `delete`, `erase`, `union`, `difference` are covered on every
+well-formed tier, however close its entries are) -/
 def OpOk (t : ITier Int) : TOp → Prop
   | .crop _ _ _ _ => True
-  | .erase a b _ _ => a < b → (NoClose t.es ∧ t.lo ≤ a ∧ b ≤ t.hi)
+  | .erase a b _ _ => a < b → (t.lo ≤ a ∧ b ≤ t.hi)
   | .space s d _ => 0 < d ∧ t.lo ≤ s
   | .shift _ _ => True
-  | .insert x m => NoClose t.es ∧ pyStrip x.l = x.l
-  | .delete _ => NoClose t.es
-  | .union u => u.WF ∧ ∃ T, C10.SepTimes T ∧ C10.TimesIn T t.es ∧ C10.TimesIn T u.es
-  | .difference u => u.WF ∧ ∃ T, C10.SepTimes T ∧ C10.TimesIn T t.es ∧ C10.TimesIn T u.es
+  | .insert x _ => pyStrip x.l = x.l
+  | .delete _ => True
+  | .union u => u.WF
+  | .difference u => u.WF
   | .intersection u => u.WF
   | .mergeLabels u => u.WF
   | .append u => u.WF ∧ 0 ≤ u.lo ∧ 0 ≤ t.hi
@@ -194,7 +197,7 @@ theorem step_wf (t : ITier Int) (hwf : t.WF) (op : TOp) (hop : OpOk t op) (t' : 
   | erase a b m sh =>
     simp only [stepT] at h
     by_cases hab : a < b
-    · obtain ⟨hn, hlo, hhi⟩ := hop hab
+    · obtain ⟨hlo, hhi⟩ := hop hab
       by_cases hm : m = .error
       · subst hm
         -- error mode: either CollisionError or (nothing overlaps) an unchanged / merely shifted tier
@@ -212,10 +215,10 @@ theorem step_wf (t : ITier Int) (hwf : t.WF) (op : TOp) (hop : OpOk t op) (t' : 
           simp [eraseCore, hf, hg, bind, Except.bind, throw, throwThe, MonadExceptOf.throw] at h
       · cases sh with
         | false =>
-          obtain ⟨t'', e, w⟩ := C07.erase_noshrink t hwf hn a b hab m hm
+          obtain ⟨t'', e, w⟩ := C07.erase_noshrink t hwf a b hab m hm
           rw [h] at e; cases e; exact w.wf
         | true =>
-          obtain ⟨u, t'', _, e, w, _⟩ := C07.erase_shrink t hwf hn a b hab hlo hhi m hm
+          obtain ⟨u, t'', _, e, w, _⟩ := C07.erase_shrink t hwf a b hab hlo hhi m hm
           rw [h] at e; cases e; exact w
     · rw [C07.erase_rejects t a b m sh (by omega)] at h; cases h
   | space s d m =>
@@ -243,9 +246,9 @@ theorem step_wf (t : ITier Int) (hwf : t.WF) (op : TOp) (hop : OpOk t op) (t' : 
       rw [h] at e; cases e; exact w
   | insert x m =>
     simp only [stepT] at h
-    obtain ⟨hn, hstr⟩ := hop
+    have hstr : pyStrip x.l = x.l := hop
     by_cases hx : x.s < x.e
-    · exact C11.step_wf t hwf hn (.insert x m) ⟨hx, hstr, fun _ => C11.merged_label_stripped t hwf x hstr⟩ t' h
+    · exact C11.step_wf t hwf (.insert x m) ⟨hx, hstr, fun _ => C11.merged_label_stripped t hwf x hstr⟩ t' h
     · -- a zero-length or reversed interval is rejected by the crop inside insertEntry
       have hx' : ({ x with l := pyStrip x.l } : Iv Int) = x := C11.strip_id x hstr
       unfold ITier.insertEntry at h
@@ -254,16 +257,14 @@ theorem step_wf (t : ITier Int) (hwf : t.WF) (op : TOp) (hop : OpOk t op) (t' : 
       simp [bind, Except.bind] at h
   | delete x =>
     simp only [stepT] at h
-    exact C11.step_wf t hwf hop (.delete x) trivial t' h
+    exact C11.step_wf t hwf (.delete x) trivial t' h
   | union u =>
     simp only [stepT] at h
-    obtain ⟨hu, T, hT, h1, h2⟩ := hop
-    obtain ⟨R, e, w, _⟩ := C10.union_spec t u hwf hu T hT h1 h2
+    obtain ⟨R, e, w, _⟩ := C10.union_spec t u hwf hop
     rw [h] at e; cases e; exact w
   | difference u =>
     simp only [stepT] at h
-    obtain ⟨hu, T, hT, h1, h2⟩ := hop
-    obtain ⟨R, e, w, _⟩ := C10.difference_spec t u hwf hu T hT h1 h2
+    obtain ⟨R, e, w, _⟩ := C10.difference_spec t u hwf hop
     rw [h] at e; cases e; exact w
   | intersection u =>
     simp only [stepT] at h
